@@ -54,11 +54,15 @@ func runDaemonHist(t *testing.T, rc *RunCtx, prop string) {
 	ch := rc.Ch
 	pop := stdFSPopulation(t)
 	all := `{"client-test01": {"Wallet 1": ["All"], "Wallet 2": ["All"]}}`
-	home := ch.Pick(4, 0) == 3
-	d := NewDaemon(t, rc, DaemonCfg{Pop: pop, PermissionsJSON: all, Pruning: ch.Pick(2, 0) == 1, HomeConfig: home})
+	how := ch.Pick(6, 0)
+	home, envOnly := how == 3, how == 4
+	d := NewDaemon(t, rc, DaemonCfg{Pop: pop, PermissionsJSON: all, Pruning: ch.Pick(2, 0) == 1, HomeConfig: home, EnvConfig: envOnly})
 	defer d.Close()
 	if home {
 		rc.Stats.Inc("daemon_runs_configured_from_home_directory", 1)
+	}
+	if envOnly {
+		rc.Stats.Inc("daemon_runs_configured_from_environment_only", 1)
 	}
 	ledger := NewLedger()
 	nKeys := 1 + ch.Pick(3, 0)
